@@ -399,6 +399,8 @@ def run(P, C, tier):
     c11.apply_deletions(P, C, "R7")
     # ---- R8
     r8_room_summary(P, C)
+    from rules import c09 as _c09
+    _c09.r10_window_open_ended(P, C, "R9")
 
 
 def r8_room_summary(P, C):
